@@ -229,3 +229,166 @@ package saml
 //@ invariant[C02,C03,C04] valid: forall(0, len(assertions), func(k int) bool { return assertionValid(sp, &assertions[k], possibleRequestIDs, now) })
 //@ invariant[C03] aud: sp.ValidateAudienceRestriction == nil ==> forall(0, len(assertions), func(k int) bool { return audienceOK(sp, &assertions[k]) })
 //@ invariant[C01] acc: sp.SignatureVerifier == nil ==> forall(0, len(assertions), func(k int) bool { return Accepted(sp, assertions[k], req) })
+
+//@ go func artifactOK(sp *ServiceProvider, r ArtifactResponse, id string, now time.Time) bool {
+//@    return r.InResponseTo == id && issueFresh(r.IssueInstant, now) &&
+//@      (r.Issuer == nil || r.Issuer.Value == sp.IDPMetadata.EntityID) && r.Status.StatusCode.Value == StatusSuccess }
+//@ ghost func Covered(sp *ServiceProvider, a Assertion) bool
+//@ ghost func sameStrings(a, b []string) bool
+//@ -- Covered(sp, a): a was read from an element that is SigOK itself, or from some element while the signature
+//@ -- of an enclosing protocol element (Response / ArtifactResponse) was SigOK. (Which element encloses which is
+//@ -- established by the call structure, not tracked as a ghost relation: see DESIGN.md C01.)
+//@ axiom covered_own (sp *ServiceProvider, a Assertion): Accepted(sp, a, signatureRequired) ==> Covered(sp, a)
+//@ axiom covered_enclosing (sp *ServiceProvider, a Assertion, el *etree.Element):
+//@    Accepted(sp, a, signatureNotRequired) && SigOK(sp, el) ==> Covered(sp, a)
+
+//@ contract (*ServiceProvider).parseResponse
+//@ ensures[C01] covered_when_required: result != nil && sp.SignatureVerifier == nil && signatureRequirement == signatureRequired ==> Covered(sp, *result)
+//@ ensures[C01] read_from_element: result != nil && sp.SignatureVerifier == nil ==>
+//@    Accepted(sp, *result, signatureRequired) || Accepted(sp, *result, signatureNotRequired)
+
+//@ contract (*ServiceProvider).parseArtifactResponse
+//@ requires[cfg] el: artifactResponseEl != nil
+//@ requires[cfg] md: sp.IDPMetadata != nil
+//@ requires[cfg] sentinel: errSignatureElementNotPresent != nil
+//@ ensures[C09] nil_iff_err: (result == nil) == (err != nil)
+//@ ensures[C09] errtype: err != nil ==> isInvalidResponseError(err)
+//@ ensures[C02,C03,C04] valid: result != nil ==> assertionValid(sp, result, possibleRequestIDs, now)
+//@ ensures[C03] audience: result != nil && sp.ValidateAudienceRestriction == nil ==> audienceOK(sp, result)
+//@ ensures[C01] covered: result != nil && sp.SignatureVerifier == nil ==> Covered(sp, *result)
+//@ -- the ArtifactResponse answers exactly the given ArtifactResolve ID, is fresh, from the IdP and successful
+//@ assert@call[C02,C03,C04] validateSignature #1 uses artifactResponse ArtifactResponse artifact_checked:
+//@    artifactOK(sp, artifactResponse, artifactRequestID, now)
+//@ -- signatures become optional for the inner Response only if the ArtifactResponse signature verified
+//@ assert@call[C01] parseResponse #1 (spa *ServiceProvider, el *etree.Element, ids []string, nowArg time.Time, req signatureRequirement) inner_requirement:
+//@    (req == signatureRequired || (req == signatureNotRequired && (sp.SignatureVerifier != nil || SigOK(sp, artifactResponseEl)))) &&
+//@    nowArg == now && sameStrings(ids, possibleRequestIDs)
+
+//@ contract (*ServiceProvider).ParseXMLResponse
+//@ requires[cfg] md: sp.IDPMetadata != nil
+//@ requires[cfg] sentinel: errSignatureElementNotPresent != nil
+//@ requires[cfg] clock: TimeNow != nil
+//@ ensures[C09] nil_iff_err: (result == nil) == (err != nil)
+//@ ensures[C09] errtype: err != nil ==> isInvalidResponseError(err)
+//@ -- validity is judged at the library clock
+//@ ensures[C02,C03,C04] valid: result != nil ==> assertionValid(sp, result, possibleRequestIDs, TimeNow())
+//@ ensures[C03] audience: result != nil && sp.ValidateAudienceRestriction == nil ==> audienceOK(sp, result)
+//@ ensures[C01] covered: result != nil && sp.SignatureVerifier == nil ==> Covered(sp, *result)
+//@ assert@call[C01] ReadFromBytes #1 (doc *etree.Document, b []byte) validated_bytes_parsed: RoundTripSafe(b) && sameBytes(b, decodedResponseXML)
+//@ assert@call[C01,C02,C03,C04] parseResponse #1 (spa *ServiceProvider, el *etree.Element, ids []string, nowArg time.Time, req signatureRequirement, cur url.URL) uses doc *etree.Document entry_arguments:
+//@    req == signatureRequired && el != nil && el == doc.Root() && sameBytes(ParsedFrom(doc), decodedResponseXML) &&
+//@    nowArg == TimeNow() && sameStrings(ids, possibleRequestIDs) && cur == currentURL
+
+//@ contract (*ServiceProvider).ParseXMLArtifactResponse
+//@ requires[cfg] md: sp.IDPMetadata != nil
+//@ requires[cfg] sentinel: errSignatureElementNotPresent != nil
+//@ requires[cfg] clock: TimeNow != nil
+//@ ensures[C09] nil_iff_err: (result == nil) == (err != nil)
+//@ ensures[C09] errtype: err != nil ==> isInvalidResponseError(err)
+//@ ensures[C02,C03,C04] valid: result != nil ==> assertionValid(sp, result, possibleRequestIDs, TimeNow())
+//@ ensures[C03] audience: result != nil && sp.ValidateAudienceRestriction == nil ==> audienceOK(sp, result)
+//@ ensures[C01] covered: result != nil && sp.SignatureVerifier == nil ==> Covered(sp, *result)
+//@ assert@call[C01] ReadFromBytes #1 (doc *etree.Document, b []byte) validated_bytes_parsed: RoundTripSafe(b) && sameBytes(b, soapResponseXML)
+//@ assert@call[C01,C04] parseArtifactResponse #1 (spa *ServiceProvider, el *etree.Element, ids []string, id string, nowArg time.Time, cur url.URL) entry_arguments:
+//@    el != nil && id == artifactRequestID && nowArg == TimeNow() && sameStrings(ids, possibleRequestIDs) && cur == currentURL
+
+//@ contract (*ServiceProvider).parseResponseHTTP
+//@ requires[cfg] req: req != nil && req.URL != nil
+//@ requires[cfg] md: sp.IDPMetadata != nil
+//@ requires[cfg] sentinel: errSignatureElementNotPresent != nil
+//@ requires[cfg] clock: TimeNow != nil
+//@ ensures[C09] nil_iff_err: (result == nil) == (err != nil)
+//@ ensures[C09] errtype: err != nil ==> isInvalidResponseError(err)
+//@ ensures[C02,C03,C04] valid: result != nil ==> assertionValid(sp, result, possibleRequestIDs, TimeNow())
+//@ ensures[C01] covered: result != nil && sp.SignatureVerifier == nil ==> Covered(sp, *result)
+
+//@ contract (*ServiceProvider).handleArtifactRequest
+//@ requires[cfg] md: sp.IDPMetadata != nil
+//@ requires[cfg] sentinel: errSignatureElementNotPresent != nil
+//@ requires[cfg] clock: TimeNow != nil
+//@ requires[cfg] log: logger.DefaultLogger != nil
+//@ ensures[C09] nil_iff_err: (result == nil) == (err != nil)
+//@ ensures[C09] errtype: err != nil ==> isInvalidResponseError(err)
+//@ ensures[C02,C03,C04] valid: result != nil ==> assertionValid(sp, result, possibleRequestIDs, TimeNow())
+//@ ensures[C01] covered: result != nil && sp.SignatureVerifier == nil ==> Covered(sp, *result)
+//@ -- the artifact response is bound to the ArtifactResolve request this call just built
+//@ assert@call[C04] ParseXMLArtifactResponse #1 (spa *ServiceProvider, body []byte, ids []string, id string) uses artifactResolveRequest *ArtifactResolve bound_to_request:
+//@    artifactResolveRequest != nil && id == artifactResolveRequest.ID && sameStrings(ids, possibleRequestIDs)
+
+//@ contract (*ServiceProvider).ParseResponse
+//@ requires[cfg] req: req != nil && req.URL != nil
+//@ requires[cfg] md: sp.IDPMetadata != nil
+//@ requires[cfg] sentinel: errSignatureElementNotPresent != nil
+//@ requires[cfg] clock: TimeNow != nil
+//@ requires[cfg] log: logger.DefaultLogger != nil
+//@ ensures[C09] nil_iff_err: (result == nil) == (err != nil)
+//@ ensures[C09] errtype: err != nil ==> isInvalidResponseError(err)
+//@ ensures[C02,C03,C04] valid: result != nil ==> assertionValid(sp, result, possibleRequestIDs, TimeNow())
+//@ ensures[C01] covered: result != nil && sp.SignatureVerifier == nil ==> Covered(sp, *result)
+
+//@ -- randomBytes panics when the random source fails: an environment fault, assumed away (trusted contract)
+//@ contract randomBytes
+//@ trusted
+//@ ensures[C12] length: len(result) == n
+
+//@ contract elementToBytes
+//@ requires[cfg] el: el != nil
+
+//@ contract (*ServiceProvider).MakeArtifactResolveRequest
+//@ requires[cfg] clock: TimeNow != nil
+//@ ensures[C09,C12] nonnil: err == nil ==> result != nil
+
+//@ -- ------------------------------------------------------------------------------------------
+//@ -- C18: logout responses
+//@ go func logoutResponseOK(sp *ServiceProvider, r *LogoutResponse) bool {
+//@    return r.Destination == sp.SloURL.String() && ns(time.Now()) <= ns(r.IssueInstant)+int64(MaxIssueDelay) &&
+//@      r.Issuer != nil && r.Issuer.Value == sp.IDPMetadata.EntityID && r.Status.StatusCode.Value == StatusSuccess }
+
+//@ contract (*ServiceProvider).validateLogoutResponse
+//@ requires[cfg] r: resp != nil
+//@ requires[cfg] md: sp.IDPMetadata != nil
+//@ ensures[C18] exact: (err == nil) == logoutResponseOK(sp, resp)
+
+//@ contract (*ServiceProvider).ValidateLogoutResponseForm
+//@ requires[cfg] md: sp.IDPMetadata != nil
+//@ requires[cfg] sentinel: errSignatureElementNotPresent != nil
+//@ requires[cfg] clock: TimeNow != nil
+//@ -- the bytes parsed are the validated ones; the signature is checked on the root; the root is what is unmarshalled
+//@ assert@call[C18] ReadFromBytes #1 (doc *etree.Document, b []byte) validated_bytes_parsed: RoundTripSafe(b)
+//@ assert@call[C18] validateSignature #1 (spa *ServiceProvider, el *etree.Element) uses doc *etree.Document signature_on_root:
+//@    el != nil && el == doc.Root()
+//@ assert@call[C18] unmarshalElement #1 (el *etree.Element, v interface{}) uses doc *etree.Document unmarshals_verified_root:
+//@    el == doc.Root() && (sp.SignatureVerifier != nil || SigOK(sp, el))
+//@ assert@call[C18] validateLogoutResponse #1 (spa *ServiceProvider, r *LogoutResponse) uses doc *etree.Document checks_that_response:
+//@    r != nil && LogoutResponseReadFrom(doc.Root(), *r)
+
+//@ contract (*ServiceProvider).ValidateLogoutResponseRedirect
+//@ requires[cfg] md: sp.IDPMetadata != nil
+//@ requires[cfg] sentinel: errSignatureElementNotPresent != nil
+//@ requires[cfg] clock: TimeNow != nil
+//@ assert@call[C18] ReadFromBytes #1 (doc *etree.Document, b []byte) validated_bytes_parsed: RoundTripSafe(b)
+//@ assert@call[C18] validateSignature #1 (spa *ServiceProvider, el *etree.Element) uses doc *etree.Document signature_on_root:
+//@    el != nil && el == doc.Root()
+//@ assert@call[C18] unmarshalElement #1 (el *etree.Element, v interface{}) uses doc *etree.Document unmarshals_verified_root:
+//@    el == doc.Root() && (sp.SignatureVerifier != nil || SigOK(sp, el))
+//@ assert@call[C18] validateLogoutResponse #1 (spa *ServiceProvider, r *LogoutResponse) uses doc *etree.Document checks_that_response:
+//@    r != nil && LogoutResponseReadFrom(doc.Root(), *r)
+//@ -- the redirect form inflates through the bounded reader
+//@ assert@call[C18,C09] ReadAll #1 (r io.Reader) bounded_inflate: isSaferFlateReader(r)
+//@ go func isSaferFlateReader(r io.Reader) bool { _, ok := r.(*saferFlateReader); return ok }
+
+//@ contract (*ServiceProvider).ValidateLogoutResponseRequest
+//@ requires[cfg] req: req != nil && req.URL != nil
+//@ requires[cfg] md: sp.IDPMetadata != nil
+//@ requires[cfg] sentinel: errSignatureElementNotPresent != nil
+//@ requires[cfg] clock: TimeNow != nil
+
+//@ -- bounded inflate: the reader never hands out more than flateUncompressLimit bytes in total
+//@ contract (*saferFlateReader).Read
+//@ requires[cfg] inner: r.r != nil
+//@ requires[cfg] inv: r.count >= 0 && r.count <= flateUncompressLimit
+//@ ensures[C09] bounded: r.count <= flateUncompressLimit && r.count >= 0
+//@ ensures[C09] progress: n >= 0 && n <= len(p)
+
+//@ contract (*InvalidResponseError).Error
+//@ ensures[C09] constant: result == "Authentication failed"
